@@ -414,3 +414,59 @@ def compound_construction(h):
     again = h.call(K, *got)
     got2 = _members_of(h, again)
     h.check('rebuilding-from-its-members-gives-the-same-members', 'ok', ok=(len(got2) == len(want) and all(g is w for g, w in zip(got2, want))))
+
+
+COLLAPSE_CONDS = {
+    'CollapseAt': ('collapse_at', dict(target=1.5, tolerance=0.25, generations=4, mask=None), 'generations'),
+    'CollapseAs': ('collapse_as', dict(offset=True, tolerance=0.25, generations=4, mask=None), 'generations'),
+    'CollapseWeight': ('collapse_weight', dict(tolerance=0.25, generations=4, mask=None), 'generations'),
+    'CollapsePosition': ('collapse_position', dict(tolerance=0.25, generations=4, mask=None), 'generations'),
+    'CollapseCost': ('collapse_cost', dict(clip=True, limit=2.0, samples=4, mask=None), 'samples'),
+}
+
+
+def _collapse_condition(h, name):
+    """the collapse termination conditions: satisfied exactly when the energy history is LONGER than the look-back window
+    and the detector -- called once, on the solver's step monitor, with exactly the condition's own settings -- reports
+    something; the message then names the condition and what collapsed (that text is what Collapsed() parses back)"""
+    if not h.is_sym():
+        h.unsupported('symbolic only')
+    det, kw, win = COLLAPSE_CONDS[name]
+    info = h.choice('info', [False, True])
+    found = h.choice('detector_reports', ['something', 'nothing'])
+    masked = h.choice('mask_given', [False, True])
+    kw = dict(kw)
+    mask = h.st.alloc('set', [1]) if masked else None
+    kw['mask'] = mask
+    report = h.st.alloc('set', [0, 2] if found == 'something' else [])
+    calls = []
+
+    def detector(I, c, args, kwargs):
+        calls.append((list(args), dict(kwargs)))
+        return report
+    h.set_summaries({('mystic/collapse.py', det): detector})
+    cond = h.call(h.get(T + name), **kw)
+    H = h.list_real('energy_history', inf=True)
+    mon = h.obj(None, tag='STEP-MONITOR')
+    inst = _inst(h, energy_history=H, _stepmon=mon)
+    r = h.call(cond, inst, info)
+    L = h.len(H)
+    long_enough = h.ev('L > W', L=L, W=kw[win])
+    want = 'long_enough' if found == 'something' else 'False'
+    h.check('satisfied-iff-history-longer-than-the-window-and-the-detector-reports', 'iff(truthy(r), %s)' % want, r=r, long_enough=long_enough)
+    if info is False:
+        h.check('result-is-bool', 'r is True or r is False', r=r)
+    ok = len(calls) <= 1
+    if calls:
+        a, k = calls[0]
+        given = dict(k)
+        ok = ok and len(a) == 1 and a[0] is mon and sorted(given) == sorted(kw) and all(given[q] is kw[q] or given[q] == kw[q] for q in kw)
+    h.check('detector-called-at-most-once-on-the-step-monitor-with-the-conditions-own-settings', 'ok', ok=ok)
+    h.check('detector-consulted-exactly-when-the-history-is-long-enough', 'iff(n == 1, long_enough)', n=len(calls), long_enough=long_enough)
+    doc = h.getattr(cond, '__doc__')
+    lit = doc if isinstance(doc, str) else (doc.parts[0] if getattr(doc, 'parts', None) and isinstance(doc.parts[0], str) else '')
+    h.check('description-names-the-condition', 'ok', ok=lit.startswith(name + ' with '))
+
+
+for _c in COLLAPSE_CONDS:
+    contract('C11/termination.%s' % _c, ['C11', 'C10'], T + _c, native=False)(lambda h, c=_c: _collapse_condition(h, c))
